@@ -1,0 +1,43 @@
+//go:build verif
+
+package protocol
+
+import (
+	"github.com/enfein/mieru/v3/pkg/appctl/appctlpb"
+	"github.com/enfein/mieru/v3/pkg/common"
+)
+
+// Accessors for the model-based verification harness (build tag verif).
+// They only forward to unexported functions.
+
+// VerifMaxFragmentSize forwards to maxFragmentSize.
+func VerifMaxFragmentSize(mtu int, transport common.TransportProtocol, mode appctlpb.LowEntropyMode) (int, error) {
+	return maxFragmentSize(mtu, transport, mode)
+}
+
+// VerifMaxPaddingSize forwards to maxPaddingSizeWithTrafficPattern.
+func VerifMaxPaddingSize(mtu int, transport common.TransportProtocol, fragmentSize int, existingPaddingSize int, pattern *appctlpb.TrafficPattern, end bool) int {
+	position := middlePadding
+	if end {
+		position = endPadding
+	}
+	return maxPaddingSizeWithTrafficPattern(mtu, transport, fragmentSize, existingPaddingSize, pattern, position)
+}
+
+// VerifLowEntropyEncodedPayloadLen forwards to lowEntropyEncodedPayloadLen.
+func VerifLowEntropyEncodedPayloadLen(extractedPayloadLen int, mode appctlpb.LowEntropyMode) (uint16, error) {
+	return lowEntropyEncodedPayloadLen(extractedPayloadLen, mode)
+}
+
+// VerifEncodeLowEntropy forwards to encodeLowEntropyPayloadWithPaddingBit.
+func VerifEncodeLowEntropy(src []byte, mode appctlpb.LowEntropyMode, halfMask uint32, rotation appctlpb.LowEntropyMaskRotation, paddingBit uint8) ([]byte, error) {
+	return encodeLowEntropyPayloadWithPaddingBit(src, mode, halfMask, rotation, paddingBit)
+}
+
+// VerifDecodeLowEntropy forwards to decodeLowEntropyPayload.
+func VerifDecodeLowEntropy(encoded []byte, extractedPayloadLen int, mode appctlpb.LowEntropyMode, halfMask uint32, rotation appctlpb.LowEntropyMaskRotation) ([]byte, error) {
+	return decodeLowEntropyPayload(encoded, extractedPayloadLen, mode, halfMask, rotation)
+}
+
+// VerifLowEntropyPaddingBit returns the host-stable padding bit.
+func VerifLowEntropyPaddingBit() uint8 { return lowEntropyPaddingBit }
